@@ -8,7 +8,8 @@ from . import common as C
 LEVEL = "model_checking"
 RULE = ("all (n, maxval) with 0 <= n <= maxval+3, maxval < bound, through number_to_bytes/bytes_to_number; width boundaries "
         "2^(8k)-1, 2^(8k), 2^(8k)+1 up to 3072 bits; every scalar and every element of each small group, edge scalars/elements "
-        "of the shipped groups, through the group codecs. distinct_nontrivial = distinct (width, leading-zero-bytes) classes "
+        "of the shipped groups, through the group codecs; each element re-encoded after reaching it by other routes from a freshly decoded operand "
+        "(scalarmult(1), add(self), scalarmult(q-1), add with Base, negate/subtract where offered; shipped groups: the first 16 scalars of the menu). distinct_nontrivial = distinct (width, leading-zero-bytes) classes "
         "of encodings seen that have at least one leading zero byte or sit on a width boundary")
 ASSUMPTIONS = ["int.to_bytes/int.from_bytes are the specification of big-endian/little-endian encodings",
                "asserts enabled (no -O)"]
@@ -90,6 +91,7 @@ def _group_codecs(inst, scalars, acc, full):
                       "replay": {"fn": "sizes", "inst": inst.desc}, "expected": [ssize, esize],
                       "observed": [getattr(g, "scalar_size_bytes", None), getattr(g, "element_size_bytes", None)]})
     seen_enc = {}
+    nroutes = 0
     for i in scalars:
         exp = R.scalar_enc(i)
         got = T.observe(g.scalar_to_bytes, i)
@@ -117,6 +119,30 @@ def _group_codecs(inst, scalars, acc, full):
             if rt != ("ok", eb):
                 acc.violation("C15/bytes_to_element/" + inst.kind, {"what": "bytes_to_element does not invert to_bytes on a subgroup element",
                               "replay": {"fn": "b2e", "inst": inst.desc, "b": eb}, "expected": eb, "observed": rt})
+            # the same element reached by other routes from a freshly DECODED operand (and from Base itself for i = 1) must encode
+            # identically: encodings are a function of the element, not of how it was produced or represented
+            D = T.observe(g.bytes_to_element, eb) if (full or nroutes < 16) else ("skip", None)
+            nroutes += 1
+            if D[0] == "ok":
+                D = D[1]
+                ops = [D] + ([g.Base] if i == 1 else [])
+                for O in ops:
+                    routes = [("scalarmult(1)", lambda: O.scalarmult(1), e_ref), ("add(self)", lambda: O.add(O), R.mul(e_ref, 2)),
+                              ("scalarmult(q-1)", lambda: O.scalarmult(R.q - 1), R.neg(e_ref)), ("Base.add(e)", lambda: g.Base.add(O), R.add(R.base(), e_ref)),
+                              ("e.add(Base)", lambda: O.add(g.Base), R.add(R.base(), e_ref))]
+                    if hasattr(O, "negate"):
+                        routes.append(("negate()", lambda: O.negate(), R.neg(e_ref)))
+                        routes.append(("negate().negate()", lambda: O.negate().negate(), e_ref))
+                    if hasattr(O, "subtract"):
+                        routes.append(("subtract(Base)", lambda: O.subtract(g.Base), R.add(e_ref, R.neg(R.base()))))
+                        routes.append(("Base.subtract(e)", lambda: g.Base.subtract(O), R.add(R.base(), R.neg(e_ref))))
+                    for lab, f, want in routes:
+                        gotr = T.observe(lambda: f().to_bytes())
+                        acc.n(transitions=1)
+                        if gotr != ("ok", R.enc(want)):
+                            acc.violation("C15/to_bytes-by-route/" + inst.kind, {"what": "the encoding of an element depends on how it was produced: %s on a %s operand" % (lab, "decoded" if O is D else "Base"),
+                                          "replay": {"fn": "route", "inst": inst.desc, "i": i, "route": lab, "operand": "decoded" if O is D else "Base"},
+                                          "expected": R.enc(want), "observed": gotr})
         acc.n(states=2, transitions=4)
         acc.inst(inst.name, scalars=1)
         acc.seen(("g", inst.kind, ssize - _nb(i) if i else ssize))
@@ -171,7 +197,7 @@ def run(tier, seed):
     tasks = [(cuts[i], cuts[i + 1]) for i in range(n) if cuts[i] < cuts[i + 1]]
     core.pmerge(_range_task, tasks, acc)
     _boundaries(acc)
-    names = (C.SMALL_INT_QUICK + C.SMALL_ED_QUICK if tier == "quick" else C.SMALL_INT_ALL + C.SMALL_ED_ALL) + T.SHIPPED
+    names = (C.SMALL_INT_QUICK + C.SMALL_ED_QUICK if tier == "quick" else C.SMALL_INT_ALL + C.SMALL_ED_ALL) + T.SHIPPED + T.WIDE
     core.pmerge(_group_task, [(n, seed) for n in names], acc)
     return acc
 
@@ -200,3 +226,10 @@ def replay(rec):
         return T.observe(lambda: g.Base.scalarmult(r["i"]).to_bytes())
     if fn == "b2e":
         return T.observe(lambda: g.bytes_to_element(r["b"]).to_bytes())
+    if fn == "route":
+        R = inst.ref
+        O = g.Base if r["operand"] == "Base" else g.bytes_to_element(R.enc(R.mul(R.base(), r["i"])))
+        f = {"scalarmult(1)": lambda: O.scalarmult(1), "add(self)": lambda: O.add(O), "scalarmult(q-1)": lambda: O.scalarmult(R.q - 1),
+             "Base.add(e)": lambda: g.Base.add(O), "e.add(Base)": lambda: O.add(g.Base), "negate()": lambda: O.negate(),
+             "negate().negate()": lambda: O.negate().negate(), "subtract(Base)": lambda: O.subtract(g.Base), "Base.subtract(e)": lambda: g.Base.subtract(O)}[r["route"]]
+        return T.observe(lambda: f().to_bytes())
